@@ -265,12 +265,16 @@ impl<C: Config> BackwardProjectionLockGuard<C> {
                 "the pending backward projection lock guard has dropped and \
                  tried to remove existing lock, but no entry found",
             );
+        crate::verif_point!("bpunlock", Some(&self.query_id), 0);
 
         entry.1.notify.notify_waiters();
     }
 }
 
 impl<C: Config> Drop for BackwardProjectionLockGuard<C> {
+    #[cfg(qbice_verif)]
+    fn drop(&mut self) { crate::verif_point!("drop.bp", Some(&self.query_id), self.defused as u64); self.done(); }
+    #[cfg(not(qbice_verif))]
     fn drop(&mut self) { self.done(); }
 }
 
@@ -314,6 +318,7 @@ impl<C: Config> ComputingLockGuard<C> {
         }
 
         self.defused = true;
+        crate::verif_point!("cl.done_pre", Some(&self.query_id), Arc::as_ptr(&self.this_computing) as u64);
 
         let entry = self
             .engine
@@ -325,12 +330,17 @@ impl<C: Config> ComputingLockGuard<C> {
                 "the computing lock guard has dropped and tried to remove \
                  existing computing lock, but no entry found",
             );
+        crate::verif_point!("unlock", Some(&self.query_id), 0);
+        crate::verif_point!("cl.done", Some(&self.query_id), Arc::as_ptr(&entry.1) as u64);
 
         entry.1.notify.notify_waiters();
     }
 }
 
 impl<C: Config> Drop for ComputingLockGuard<C> {
+    #[cfg(qbice_verif)]
+    fn drop(&mut self) { crate::verif_point!("drop.lock", Some(&self.query_id), self.defused as u64); self.done(); }
+    #[cfg(not(qbice_verif))]
     fn drop(&mut self) { self.done(); }
 }
 
@@ -346,8 +356,10 @@ impl<C: Config> Computing<C> {
         &self,
         query_id: &QueryID,
     ) -> Option<(OwnedNotified, Arc<QueryComputing>)> {
-        self.computing_lock
-            .read_sync(query_id, |_, v| (v.notified_owned(), v.clone()))
+        self.computing_lock.read_sync(query_id, |_, v| {
+            crate::verif_point!("cl.reg", Some(query_id), std::sync::Arc::as_ptr(v) as u64);
+            (v.notified_owned(), v.clone())
+        })
     }
 }
 
@@ -388,6 +400,7 @@ impl<C: Config> Engine<C> {
         }
 
         notified.await;
+        crate::verif_point!("cl.woken", Some(callee), 0);
 
         Ok(false)
     }
@@ -472,6 +485,7 @@ impl<C: Config, Q: Query> Snapshot<C, Q> {
 
             if last_verified.0 == caller_information.timestamp() {
                 // no need to repair
+                crate::verif_point!("cl.none", Some(self.query_id()), 0);
                 return None;
             }
 
@@ -509,18 +523,24 @@ impl<C: Config, Q: Query> Snapshot<C, Q> {
             Entry::Occupied(entry) => {
                 // there's some computing state already try again
                 let notified_owned = entry.get().notified_owned();
+                crate::verif_point!("cl.reg", Some(self.query_id()), Arc::as_ptr(entry.get()) as u64);
+                #[cfg(qbice_verif)]
+                let qid = *self.query_id();
 
                 drop(entry);
                 drop(self);
 
                 // wait for the existing computing to finish
                 notified_owned.await;
+                crate::verif_point!("cl.woken", Some(&qid), 0);
 
                 return None;
             }
 
             Entry::Vacant(vacant_entry) => {
+                crate::verif_point!("cl.vacant", Some(self.query_id()), Arc::as_ptr(&entry) as u64);
                 vacant_entry.insert_entry(entry.clone());
+                crate::verif_point!("lock", Some(self.query_id()), mode as u64);
 
                 Some(ComputingLockGuard {
                     engine: self.engine().clone(),
@@ -573,6 +593,7 @@ impl<C: Config, Q: Query> Snapshot<C, Q> {
 
             Entry::Vacant(vacant_entry) => {
                 vacant_entry.insert_entry(pending_backward_projection);
+                crate::verif_point!("bplock", Some(self.query_id()), 0);
 
                 Some(BackwardProjectionLockGuard {
                     engine: self.engine().clone(),
@@ -613,11 +634,14 @@ impl<C: Config, Q: Query> Snapshot<C, Q> {
         caller_information: &CallerInformation,
         mut lock_guard: ComputingLockGuard<C>,
     ) {
+        crate::verif_pause!("c.up.before", Some(self.query_id()));
         self.upgrade_to_exclusive().await;
         let timsestamp = caller_information.timestamp();
 
         async move {
+            crate::verif_pause!("c.g.start", Some(self.query_id()));
             self.clean_query(clean_edges, new_tfc, timsestamp).await;
+            crate::verif_pause!("c.g.cleaned", Some(self.query_id()));
 
             lock_guard.done();
         }
@@ -695,6 +719,7 @@ impl<C: Config, Q: Query> Snapshot<C, Q> {
             continuing_tx,
         )
         .await;
+        crate::verif_pause!("p.after", Some(&lock_guard.query_id));
 
         lock_guard.done();
     }
